@@ -187,7 +187,12 @@ func (vc *VC) call(x *ssa.Call, st *State) {
 	}
 	if vc.fc != nil && vc.inlineDepth == 0 {
 		key, fn, _ := vc.calleeKey(x.Common())
+		// hints placed after a call may speak about what it returned: "lastresult"
+		if tv != nil {
+			vc.lastResult = tv
+		}
 		vc.hintsAtCall("after:", key, fn, st)
+		vc.lastResult = nil
 	}
 	vc.callPost[x] = st.clone()
 }
@@ -1234,6 +1239,10 @@ func (vc *VC) hintsAtCall(prefix, key string, fn *ssa.Function, st *State) {
 			continue
 		}
 		seen[h.At] = true
-		vc.applyHints(-1, h.At, vc.newEnv(st, vc.entrySt))
+		henv := vc.newEnv(st, vc.entrySt)
+		if vc.lastResult != nil {
+			henv.vars["lastresult"] = *vc.lastResult
+		}
+		vc.applyHints(-1, h.At, henv)
 	}
 }
